@@ -1,4 +1,4 @@
-import Flowjaxv.Proofs.BisectionAR
+import Flowjaxv.Proofs.BisectionGen
 /-!
 # C10 — the bisection inverter finds the root of any increasing function
 
@@ -366,5 +366,185 @@ theorem autoregressive_trace_instance :
     autoregressiveBisection (fun x : List Rat => [2 * x.getD 0 0 - 5, x.getD 1 0 + x.getD 0 0 - 5])
       (-10) 10 (1 / 1000) 2 200 300 = some [5 / 2, 5 / 2] := by
   decide +kernel
+
+/-! ## The same theorems on the REGENERATED whole functions
+
+`GenBis.adaptInterval`, `GenBis.bisectionSearch`, `GenBis.autoregressiveBisectionSearch`, `GenBis.Inverter.call`,
+`GenBis.Inverter.checkInit` are `Gen/BisectionGen.lean`: `_adapt_interval_to_include_root`, `_bisection_search`,
+`_autoregressive_bisection_search`, `AutoregressiveBisectionInverter.__call__` / `.__check_init__` translated statement by statement
+from `flowjax/bisection_search.py` on every run (argument handling, guards, the call of the adaptation, both `lax.while_loop`s with
+their initial states, the `lax.scan` with its nested closures, the returned values).  Their first argument is the fuel of the
+`while_loop`s; `Bw.Res` = `ok v | valueError | noFuel`.  Only the meaning of `lax.while_loop` (`Model.whileFuel`), `lax.scan` (left fold
+over `List.range n`) and of the array primitives (`Model/BisectWorld.lean`) is hand-written. -/
+section BisectionGen
+
+section generic
+variable {α : Type} [Add α] [Sub α] [Mul α] [Div α] [Neg α] [LT α] [LE α] [BEq α]
+  [OfNat α 0] [OfNat α 1] [OfNat α 2] [OfNat α 4] [OfScientific α]
+  [DecidableLT α] [DecidableLE α] [Transc α] [Inhabited α]
+
+/-- `gen_adapt_eq_model`: for every scalar type, function, interval and fuel, the generated `_adapt_interval_to_include_root`
+(called with the default `expand_factor = 2.0`, as `_bisection_search` does) returns what the hand model returns. -/
+theorem gen_adapt_eq_model (fuel : ℕ) (func : α → α) (lower upper : α) :
+    GenBis.adaptInterval fuel func lower upper (2 : α) = Bw.ofOption (adaptInterval func lower upper fuel) :=
+  BisectionGen.gen_adapt_eq_model fuel func lower upper
+
+/-- `gen_bisection_search_eq_model`: the generated `_bisection_search` raises `ValueError` exactly when `max_iter < 0` or
+`tol ≤ 0` and otherwise returns the hand model's `(root, adapt_iterations, iterations)` (every scalar type, every argument). -/
+theorem gen_bisection_search_eq_model (fuel : ℕ) (func : α → α) (lower upper tol : α) (max_iter : Int) :
+    GenBis.bisectionSearch fuel func lower upper tol max_iter =
+      if searchArgsOk tol max_iter = true then Bw.ofOption (bisectionSearch func lower upper tol max_iter fuel)
+      else Bw.Res.valueError :=
+  BisectionGen.gen_bisection_search_eq_model fuel func lower upper tol max_iter
+
+/-- `gen_autoregressive_eq_model`: the generated `_autoregressive_bisection_search` (scan over `length` coordinates, closure
+`x ↦ autoregressive_fn(y.at[i].set(x))[i]`, one `_bisection_search` per coordinate, initial carry `jnp.full(length, (upper+lower)/2)`)
+returns what the hand model returns, for arguments the per-coordinate guards accept; with rejected arguments and at least one
+coordinate it raises `ValueError`. -/
+theorem gen_autoregressive_eq_model (fuel : ℕ) (fn : List α → List α) (lower upper tol : α) (n : ℕ) (max_iter : Int) :
+    (searchArgsOk tol max_iter = true → GenBis.autoregressiveBisectionSearch fuel fn lower upper tol n max_iter =
+      Bw.ofOption (autoregressiveBisection fn lower upper tol n max_iter fuel)) ∧
+    (searchArgsOk tol max_iter = false →
+      GenBis.autoregressiveBisectionSearch fuel fn lower upper tol (n + 1) max_iter = Bw.Res.valueError) :=
+  ⟨BisectionGen.gen_autoregressive_eq_model fuel fn lower upper tol n max_iter,
+   BisectionGen.gen_autoregressive_raises fuel fn lower upper tol n max_iter⟩
+
+/-- `gen_inverter_call_eq_model`: the generated `AutoregressiveBisectionInverter.__call__` is the hand model's search applied to
+`x ↦ bijection.transform(x, condition) − y` with the inverter's own `lower, upper, tol, max_iter` and `bijection.shape[0]`
+coordinates. -/
+theorem gen_inverter_call_eq_model {C : Type} (fuel : ℕ) (self : Bw.Inverter α) (b : Bw.Bijection α C) (y : List α) (c : C)
+    (hok : searchArgsOk self.tol self.max_iter = true) :
+    GenBis.Inverter.call fuel self b y c =
+      Bw.ofOption (inverterCall (fun x => b.transform x c) y self.lower self.upper self.tol (Bw.shape0 b) self.max_iter fuel) :=
+  BisectionGen.gen_inverter_call_eq_model fuel self b y c hok
+
+end generic
+
+/-- `gen_inverter_check_iff`: the generated `__check_init__` returns (does not raise `ValueError`) iff `lower < upper`, `tol > 0` and
+`max_iter ≥ 0`; it is the hand model's `inverterArgsOk`. -/
+theorem gen_inverter_check_iff (W : ℕ) (self : Bw.Inverter ℝ) :
+    (GenBis.Inverter.checkInit W self = Bw.Res.ok () ↔ self.lower < self.upper ∧ 0 < self.tol ∧ 0 ≤ self.max_iter) ∧
+    GenBis.Inverter.checkInit W self =
+      (if inverterArgsOk self.lower self.upper self.tol self.max_iter = true then Bw.Res.ok () else Bw.Res.valueError) :=
+  ⟨BisectionGen.gen_inverter_check_iff W self, BisectionGen.gen_inverter_check_eq_model W self⟩
+
+/-- `gen_adapt_bracket`: whenever the generated `_adapt_interval_to_include_root` returns (any fuel), the returned interval
+brackets the root, both ends are the root as soon as one is, and it is no wider than the initial width plus the initial distance to
+the root. -/
+theorem gen_adapt_bracket (f : ℝ → ℝ) (hf : StrictMono f) (r : ℝ) (hr : f r = 0) {lower upper : ℝ}
+    (h : lower < upper) (fuel : ℕ) (lo hi : ℝ) (it : Int)
+    (e : GenBis.adaptInterval fuel f lower upper 2 = Bw.Res.ok (lo, hi, it)) :
+    lo ≤ r ∧ r ≤ hi ∧ ((lo = r ∨ hi = r) → lo = r ∧ hi = r) ∧
+      hi - lo ≤ upper - lower + max 0 (max (lower - r) (r - upper)) :=
+  adapt_bracket f hf r hr h fuel lo hi it
+    ((BisectionGen.ofOption_eq_ok _ _).mp (by rw [← BisectionGen.gen_adapt_eq_model]; exact e))
+
+/-- `gen_bisect_result`: the generated `_bisection_search` with `max_iter ≥ 0`, `tol > 0` and enough fuel returns
+`(root, adapt_iterations, iterations)` where, `(lo₀, hi₀, adapt_iterations)` being what the generated adaptation returns,
+`lo₀ ≤ r ≤ hi₀` and `|root − r| ≤ max tol ((hi₀ − lo₀) / 2^(max_iter+1))` (also `≤ (hi₀ − lo₀)/2^(iterations+1)`). -/
+theorem gen_bisect_result (f : ℝ → ℝ) (hf : StrictMono f) (r : ℝ) (hr : f r = 0) {lower upper : ℝ}
+    (h : lower < upper) (tol : ℝ) (max_iter : Int) (hmi : 0 ≤ max_iter) (htol : 0 < tol) (fuel : ℕ)
+    (hf1 : Nat.clog 2 (⌈max (lower - r) (r - upper) / (upper - lower)⌉₊ + 1) ≤ fuel)
+    (hf2 : max_iter.toNat ≤ fuel) :
+    ∃ root ai it lo₀ hi₀, GenBis.bisectionSearch fuel f lower upper tol max_iter = Bw.Res.ok (root, ai, it) ∧
+      GenBis.adaptInterval fuel f lower upper 2 = Bw.Res.ok (lo₀, hi₀, ai) ∧ lo₀ ≤ r ∧ r ≤ hi₀ ∧
+      |root - r| ≤ max tol ((hi₀ - lo₀) / 2 ^ (max_iter.toNat + 1)) ∧
+      |root - r| ≤ (hi₀ - lo₀) / 2 ^ (it.toNat + 1) := by
+  have hok : searchArgsOk tol max_iter = true := (Bisection.searchArgsOk_iff tol max_iter).mpr ⟨hmi, htol⟩
+  obtain ⟨root, ai, it, lo₀, hi₀, e, ea, b1, b2, r1, r2⟩ := search_result_bracket f hf r hr h tol max_iter hok fuel hf1 hf2
+  refine ⟨root, ai, it, lo₀, hi₀, ?_, ?_, b1, b2, r1, r2⟩
+  · rw [BisectionGen.gen_bisection_search_eq_model, if_pos hok, e]; rfl
+  · rw [BisectionGen.gen_adapt_eq_model, ea]; rfl
+
+/-- `gen_search_result`: the generated `_bisection_search`, ANY initial interval `lower < upper` (containing the root or not),
+`max_iter ≥ 0`, `tol > 0`, fuel covering `N = ⌈log₂(⌈d/(upper−lower)⌉+1)⌉` adaptation steps and `max_iter` bisection steps: it returns
+with `0 ≤ adapt_iterations ≤ N`, `0 ≤ iterations ≤ max_iter` and `|root − r| ≤ max tol (W / 2^(max_iter+1))`, `W = (upper − lower) + d`;
+with `max_iter < 0` or `tol ≤ 0` it raises `ValueError`. -/
+theorem gen_search_result (f : ℝ → ℝ) (hf : StrictMono f) (r : ℝ) (hr : f r = 0) {lower upper : ℝ}
+    (h : lower < upper) (tol : ℝ) (max_iter : Int) (fuel : ℕ) :
+    (0 ≤ max_iter → 0 < tol →
+      Nat.clog 2 (⌈max (lower - r) (r - upper) / (upper - lower)⌉₊ + 1) ≤ fuel → max_iter.toNat ≤ fuel →
+      ∃ root ai it, GenBis.bisectionSearch fuel f lower upper tol max_iter = Bw.Res.ok (root, ai, it) ∧
+        0 ≤ ai ∧ ai ≤ Nat.clog 2 (⌈max (lower - r) (r - upper) / (upper - lower)⌉₊ + 1) ∧
+        0 ≤ it ∧ it ≤ max_iter ∧
+        |root - r| ≤ max tol ((upper - lower + max 0 (max (lower - r) (r - upper))) / 2 ^ (max_iter.toNat + 1))) ∧
+    (¬ (0 ≤ max_iter ∧ 0 < tol) → GenBis.bisectionSearch fuel f lower upper tol max_iter = Bw.Res.valueError) := by
+  constructor
+  · intro hmi htol hf1 hf2
+    have hok : searchArgsOk tol max_iter = true := (Bisection.searchArgsOk_iff tol max_iter).mpr ⟨hmi, htol⟩
+    obtain ⟨root, ai, it, e, rest⟩ := search_result f hf r hr h tol max_iter hok fuel hf1 hf2
+    exact ⟨root, ai, it, by rw [BisectionGen.gen_bisection_search_eq_model, if_pos hok, e]; rfl, rest⟩
+  · intro hn
+    rw [BisectionGen.gen_bisection_search_eq_model, if_neg]
+    rwa [Bisection.searchArgsOk_iff]
+
+/-- `gen_autoregressive_exact` (idealised exact-root case on the generated scan): triangular map strictly increasing in its own
+coordinate, `xs` its preimage of `0`; if the generated `_bisection_search` (these `lower, upper, tol, max_iter`, this fuel) returns
+the exact root of every strictly increasing function that has one, the generated `_autoregressive_bisection_search` returns `xs`. -/
+theorem gen_autoregressive_exact {fn : List ℝ → List ℝ} {n : ℕ} (ht : Bisection.Triangular fn n)
+    (xs : List ℝ) (hxs : xs.length = n) (hroot : ∀ i, i < n → (fn xs).getD i 0 = 0)
+    (lower upper tol : ℝ) (max_iter : Int) (hmi : 0 ≤ max_iter) (htol : 0 < tol) (fuel : ℕ)
+    (hsolve : ∀ (g : ℝ → ℝ) (r : ℝ), StrictMono g → g r = 0 →
+      ∃ ai it, GenBis.bisectionSearch fuel g lower upper tol max_iter = Bw.Res.ok (r, ai, it)) :
+    GenBis.autoregressiveBisectionSearch fuel fn lower upper tol n max_iter = Bw.Res.ok xs := by
+  have hok : searchArgsOk tol max_iter = true := (Bisection.searchArgsOk_iff tol max_iter).mpr ⟨hmi, htol⟩
+  rw [BisectionGen.gen_autoregressive_eq_model _ _ _ _ _ _ _ hok, BisectionGen.ofOption_eq_ok]
+  unfold autoregressiveBisection
+  apply autoregressive_exact ht xs hxs hroot _ _ _ (by simp [arInit])
+  intro g r hg hr
+  obtain ⟨ai, it, e⟩ := hsolve g r hg hr
+  rw [BisectionGen.gen_bisection_search_eq_model, if_pos hok, BisectionGen.ofOption_eq_ok] at e
+  unfold bisectionSolver
+  rw [e]; rfl
+
+/-- `gen_autoregressive_error_bound`: the generated `_autoregressive_bisection_search` on a triangular map whose own-coordinate
+slices are continuous with slope `≥ m > 0` and which is `L`-Lipschitz (ℓ¹) in the earlier coordinates, `xs` its preimage of `0` with
+every `xs[i]` within `D` of `[lower, upper]`, `max_iter ≥ 0`, `tol > 0`, any `ε` with
+`max tol ((upper − lower + D + ε(1+L/m)^n) / 2^(max_iter+1)) ≤ ε`: it returns (explicit fuel) `out` of length `n` with
+`|out[i] − xs[i]| ≤ ε·(1 + L/m)^i`. -/
+theorem gen_autoregressive_error_bound {fn : List ℝ → List ℝ} {n : ℕ} {m L : ℝ}
+    (ht : Bisection.LipTriangular fn n m L) (xs : List ℝ) (hxs : xs.length = n)
+    (hroot : ∀ i, i < n → (fn xs).getD i 0 = 0) {lower upper : ℝ} (h : lower < upper) (tol : ℝ)
+    (max_iter : Int) (hmi : 0 ≤ max_iter) (htol : 0 < tol) (D ε : ℝ) (hD : 0 ≤ D)
+    (hxsD : ∀ i, i < n → lower - D ≤ xs.getD i 0 ∧ xs.getD i 0 ≤ upper + D)
+    (hε : max tol ((upper - lower + D + ε * (1 + L / m) ^ n) / 2 ^ (max_iter.toNat + 1)) ≤ ε)
+    (fuel : ℕ)
+    (hf1 : Nat.clog 2 (⌈(D + ε * (1 + L / m) ^ n) / (upper - lower)⌉₊ + 1) ≤ fuel)
+    (hf2 : max_iter.toNat ≤ fuel) :
+    ∃ out, GenBis.autoregressiveBisectionSearch fuel fn lower upper tol n max_iter = Bw.Res.ok out ∧ out.length = n ∧
+      ∀ i, i < n → |out.getD i 0 - xs.getD i 0| ≤ ε * (1 + L / m) ^ i := by
+  have hok : searchArgsOk tol max_iter = true := (Bisection.searchArgsOk_iff tol max_iter).mpr ⟨hmi, htol⟩
+  obtain ⟨out, e, hl, hb⟩ :=
+    autoregressive_bisection_error_bound ht xs hxs hroot h tol max_iter hok D ε hD hxsD hε fuel hf1 hf2
+  exact ⟨out, by rw [BisectionGen.gen_autoregressive_eq_model _ _ _ _ _ _ _ hok, e]; rfl, hl, hb⟩
+
+/-- non-vacuity over ℝ: `gen_search_result` on `2x − 37.5`, `[-10, 10]`, `tol = 1e-3`, `max_iter = 200`, every fuel `≥ 200`. -/
+theorem gen_search_instance (fuel : ℕ) (hfuel : 200 ≤ fuel) :
+    ∃ root ai it, GenBis.bisectionSearch fuel (fun x : ℝ => 2 * x - 37.5) (-10) 10 (1 / 1000) 200 = Bw.Res.ok (root, ai, it) ∧
+      0 ≤ ai ∧ ai ≤ 1 ∧ 0 ≤ it ∧ it ≤ 200 ∧ |root - 18.75| ≤ 1 / 1000 := by
+  obtain ⟨root, ai, it, e, rest⟩ := search_instance fuel hfuel
+  refine ⟨root, ai, it, ?_, rest⟩
+  rw [BisectionGen.gen_bisection_search_eq_model, if_pos (by rw [Bisection.searchArgsOk_iff]; norm_num), e]; rfl
+
+/-- the generated definitions at exact `Rat`, by kernel evaluation (the instances the driver executes and the correspondence
+compares bit for bit with the real code): the adaptation moves `[-10, 10]` to `[10, 30]` in one step; the search returns
+`(75/4, 1, 4)`; the scan on `(x₀, x₁) ↦ (2x₀ − 5, x₁ + x₀ − 5)` returns the preimage `(5/2, 5/2)`; `__call__` on the bijection
+`(x₀, x₁) ↦ (2x₀, x₁ + x₀)` at `y = (5, 5)` returns the same; the guards raise for `max_iter = −1`, `tol = 0` and `lower = upper`
+and accept `lower < upper`. -/
+theorem gen_trace_instance :
+    GenBis.adaptInterval 300 (fun x : Rat => 2 * x - 75 / 2) (-10) 10 2 = Bw.Res.ok (10, 30, 1) ∧
+    GenBis.bisectionSearch 300 (fun x : Rat => 2 * x - 75 / 2) (-10) 10 (1 / 1000) 200 = Bw.Res.ok (75 / 4, 1, 4) ∧
+    GenBis.autoregressiveBisectionSearch 300 (fun x : List Rat => [2 * x.getD 0 0 - 5, x.getD 1 0 + x.getD 0 0 - 5])
+      (-10) 10 (1 / 1000) 2 200 = Bw.Res.ok [5 / 2, 5 / 2] ∧
+    GenBis.Inverter.call 300 (⟨-10, 10, 1 / 1000, 200⟩ : Bw.Inverter Rat)
+      (⟨fun x (_ : Unit) => [2 * x.getD 0 0, x.getD 1 0 + x.getD 0 0], [2]⟩ : Bw.Bijection Rat Unit) [5, 5] ()
+      = Bw.Res.ok [5 / 2, 5 / 2] ∧
+    GenBis.bisectionSearch 300 (fun x : Rat => x) (-10) 10 (1 / 1000) (-1) = Bw.Res.valueError ∧
+    GenBis.bisectionSearch 300 (fun x : Rat => x) (-10) 10 0 5 = Bw.Res.valueError ∧
+    GenBis.Inverter.checkInit 0 (⟨1, 1, 1 / 1000, 200⟩ : Bw.Inverter Rat) = Bw.Res.valueError ∧
+    GenBis.Inverter.checkInit 0 (⟨-10, 10, 1 / 1000, 200⟩ : Bw.Inverter Rat) = Bw.Res.ok () := by
+  refine ⟨?_, ?_, ?_, ?_, ?_, ?_, ?_, ?_⟩ <;> decide +kernel
+
+end BisectionGen
 
 end C10
